@@ -220,13 +220,19 @@ Definition op_target (o : sop) : option nat :=
   match o with
   | SReqAdd i _ | SReqSet i _ _ | SReqOrdered i _ | SReqBody i | SSend i | SSendQuiet i | SSendRetry i _
   | SBegin i | SFinish i => Some i
-  | SClientAdd _ | SCellSet _ => None
+  | SClientAdd _ _ | SClone _ | SCellSet _ => None
   end.
 
 Lemma upd_other {A} (f : A -> A) d : forall l i j, i <> j -> nth j (upd i f l) d = nth j l d.
 Proof.
   induction l as [|x l IH]; intros i j N; [destruct i; reflexivity|].
   destruct i, j; cbn [upd nth]; try reflexivity; [contradiction|]. apply IH. congruence.
+Qed.
+
+Lemma nth_upd_same {A} (f : A -> A) d : forall l i, i < length l -> nth i (upd i f l) d = f (nth i l d).
+Proof.
+  induction l as [|x l IH]; intros i L; [cbn in L; lia|].
+  destruct i; cbn [upd nth]; [reflexivity|]. apply IH. cbn [length] in L. lia.
 Qed.
 
 Theorem step_frame s o i j :
@@ -240,19 +246,45 @@ Qed.
 
 (* executing requests never changes the client's form data *)
 Theorem client_untouched_by_requests s o :
-  (forall f, o <> SClientAdd f) -> ss_client (fst (sstep s o)) = ss_client s.
-Proof. intro H. destruct o; try reflexivity. exfalso. now apply (H f). Qed.
+  (forall c f, o <> SClientAdd c f) -> (forall c, o <> SClone c) ->
+  ss_client (fst (sstep s o)) = ss_client s.
+Proof.
+  intros H H'. destruct o; try reflexivity; exfalso; [now apply (H c f)|now apply (H' c)].
+Qed.
+
+(* ---------- clones ---------- *)
+
+(* Clone() gives the new client the form data of the original as they are at that moment ... *)
+Theorem clone_copies s c :
+  nth (length (ss_client s)) (ss_client (fst (sstep s (SClone c)))) [] = nth c (ss_client s) [] /\
+  forall d, d < length (ss_client s) ->
+    nth d (ss_client (fst (sstep s (SClone c)))) [] = nth d (ss_client s) [].
+Proof.
+  cbn [sstep fst ss_client]. split.
+  - now rewrite nth_middle.
+  - intros d L. now rewrite app_nth1.
+Qed.
+
+(* ... and from then on what is added to one client (original or clone) is not seen by any other *)
+Theorem client_add_frame s c d f :
+  c <> d -> nth d (ss_client (fst (sstep s (SClientAdd c f)))) [] = nth d (ss_client s) [].
+Proof. intro N. cbn [sstep fst ss_client]. now apply upd_other. Qed.
+
+Theorem client_add_own s c f :
+  c < length (ss_client s) ->
+  nth c (ss_client (fst (sstep s (SClientAdd c f)))) [] = merge_form (nth c (ss_client s) []) f.
+Proof. intro L. cbn [sstep fst ss_client]. now apply nth_upd_same. Qed.
 
 (* every attempt marshals the payload as it is at that moment: nothing is kept from an earlier
    marshalling *)
 Theorem attempts_marshal_fresh s i v r :
-  r = prepare (ss_client s) (ss_cell s) (nth i (ss_reqs s) sreq0) ->
+  r = prepare (client_of s i) (ss_cell s) (nth i (ss_reqs s) sreq0) ->
   form_plan_of (sr_form r) [] (sr_ordered r) = FNone -> sr_body r = true ->
   snd (sstep s (SSendRetry i v)) = [OutMarshal i (ss_cell s); OutMarshal i v] /\
   snd (sstep s (SSend i)) = [OutMarshal i (ss_cell s)].
 Proof.
   intros -> P B. cbn [sstep snd]. unfold emit. cbn [resnap sr_form sr_ordered sr_body sr_snap].
-  rewrite P, B. unfold prepare. destruct (ss_client s); split; reflexivity.
+  rewrite P, B. unfold prepare. destruct (client_of s i); split; reflexivity.
 Qed.
 
 (* ---------- between set-up and write ---------- *)
@@ -267,12 +299,6 @@ Definition other_request (i : nat) (o : sop) : Prop := exists j, op_target o = S
 
 (* whatever other requests do (setters, whole executions, retries that change the shared payload)
    between the moment R_i's body was set up and the moment it is written, R_i sends what was set up *)
-Lemma nth_upd_same {A} (f : A -> A) d : forall l i, i < length l -> nth i (upd i f l) d = f (nth i l d).
-Proof.
-  induction l as [|x l IH]; intros i L; [cbn in L; lia|].
-  destruct i; cbn [upd nth]; [reflexivity|]. apply IH. cbn [length] in L. lia.
-Qed.
-
 Theorem interleaving_independent s i ops :
   i < length (ss_reqs s) ->
   Forall (other_request i) ops ->
